@@ -141,6 +141,11 @@ def run_shard(shard, ctx, tier):
             for ver in (0, 1):
                 for via in ('string', 'file'):
                     guarded_check(mod, {'pid': 0, 'regions': regs, 'ro': ro, 'ver': ver, 'via': via}, ctx)
+        # ids of the form other tools use ('id_...'): they are ids like any other
+        for ver in (0, 1):
+            for via in ('string', 'file'):
+                guarded_check(mod, {'pid': 0, 'regions': [default_region(2), default_region(1)], 'ro': [['id_r2', 0], ['id_r1', 1]], 'ver': ver, 'via': via,
+                                    'idp': 'id_'}, ctx)
         # a foreign-tool line: many baseline points, an outline whose height varies along the line, no stored heights
         for ver in (0, 1):
             ln = dict(default_line(), bl=len(BASELINES), poly=len(POLYGONS), h=HEIGHTS.index(None))
@@ -203,11 +208,12 @@ def build(case):
     from pero_ocr.core.layout import PageLayout, RegionLayout, TextLine
     page = PageLayout(id=PIDS[case['pid']], page_size=(100, 200))
     ck = case.get('cont', 0)
+    idp = case.get('idp', '')
     for ri, r in enumerate(case['regions']):
-        reg = RegionLayout(f'r{ri + 1}', container(POLYGONS[r['rpoly']], ck), region_type=RTYPES[r['type']])
+        reg = RegionLayout(f'{idp}r{ri + 1}', container(POLYGONS[r['rpoly']], ck), region_type=RTYPES[r['type']])
         reg.transcription = RTEXTS[r['rtext']]
         for li, l in enumerate(r['lines']):
-            reg.lines.append(TextLine(id=f'r{ri + 1}-l{li + 1}', baseline=container((BASELINES + [LONG_BASELINE])[l['bl']], ck),
+            reg.lines.append(TextLine(id=f'{idp}r{ri + 1}-l{li + 1}', baseline=container((BASELINES + [LONG_BASELINE])[l['bl']], ck),
                                       polygon=container((POLYGONS + [WEDGE_POLYGON])[l['poly']], ck), heights=heights_value(l['h']),
                                       transcription=TEXTS[l['t']], transcription_confidence=CONFS[l['c']], index=INDEXES[l['idx']]))
         page.regions.append(reg)
@@ -229,11 +235,11 @@ def expected(case):
             h = heights_value(l['h'])
             t = TEXTS[l['t']]
             c = CONFS[l['c']]
-            lines.append({'id': f'r{ri + 1}-l{li + 1}', 'index': INDEXES[l['idx']] if INDEXES[l['idx']] is not None else li,
+            lines.append({'id': f'{case.get("idp", "")}r{ri + 1}-l{li + 1}', 'index': INDEXES[l['idx']] if INDEXES[l['idx']] is not None else li,
                           'baseline': rnd((BASELINES + [LONG_BASELINE])[l['bl']]), 'polygon': rnd((POLYGONS + [WEDGE_POLYGON])[l['poly']]),
                           'heights': None if h is None else [float(f'{h[0]:.1f}'), float(f'{h[1]:.1f}')],
                           'text': t, 'conf': None if (c is None or t is None) else float(f'{c:.3f}')})
-        regs.append({'id': f'r{ri + 1}', 'type': RTYPES[r['type']], 'polygon': rnd(POLYGONS[r['rpoly']]),
+        regs.append({'id': f'{case.get("idp", "")}r{ri + 1}', 'type': RTYPES[r['type']], 'polygon': rnd(POLYGONS[r['rpoly']]),
                      'text': RTEXTS[r['rtext']], 'lines': lines})
     if case['ro'] is not None:
         ro = {k: v for k, v in case['ro']}
@@ -379,7 +385,7 @@ def check_case(case, ctx):
         for wr, gr in zip(want['regions'], got4['regions']):
             for wl, gl in zip(wr['lines'], gr['lines']):
                 if gl['heights'] is not None and wl['heights'] is not None and len(gl['heights']) == 2 and \
-                        HEIGHTS[case['regions'][int(wr['id'][1:]) - 1]['lines'][int(wl['id'].split('-l')[1]) - 1]['h']] is None:
+                        HEIGHTS[case['regions'][int(wr['id'].split('r')[-1]) - 1]['lines'][int(wl['id'].split('-l')[1]) - 1]['h']] is None:
                     wl['heights'] = gl['heights']      # (that the guess does not depend on earlier imports is a C08 matter and checked there)
         d4 = first_diff(want, got4)
         if d4:
